@@ -178,6 +178,7 @@ func doReadOn(d *fileDesc, rs readSpec, shared *mcap.Reader) wl.Ev {
 	var capMax uint64
 	mds := 0
 	end, why := "", ""
+	usedIndex := false
 	func() {
 		defer func() {
 			if p := recover(); p != nil {
@@ -209,6 +210,7 @@ func doReadOn(d *fileDesc, rs readSpec, shared *mcap.Reader) wl.Ev {
 			end, why = "openerror", err.Error()
 			return
 		}
+		usedIndex = fmt.Sprintf("%T", it) == "*mcap.indexedMessageIterator"
 		msg := &mcap.Message{}
 		for {
 			s, c, m, err := it.NextInto(msg)
@@ -243,6 +245,7 @@ func doReadOn(d *fileDesc, rs readSpec, shared *mcap.Reader) wl.Ev {
 	e["maxLive"] = maxLive
 	e["capKiB"] = capMax / 1024
 	e["mds"] = mds
+	e["indexed"] = usedIndex
 	return e
 }
 
@@ -698,6 +701,73 @@ func irun(args []string) error {
 			}
 			d := describe(b.Bytes)
 			if err := emit(job{fmt.Sprintf("%s%d-%d", *mode, *seed, i), b.Bytes, readSpecs(r, d, *reads, true), pickSessions(*nsess)}); err != nil {
+				return err
+			}
+		}
+	case "decision":
+		// the decision table exported by TLC from ReadDecision.tla: every combination of the summary-shaping writer options x
+		// content shape, written by the real writer and read in the four modes; each read carries the model's prediction
+		b, err := os.ReadFile(*in)
+		if err != nil {
+			return err
+		}
+		for li, line := range bytes.Split(b, []byte("\n")) {
+			if len(bytes.TrimSpace(line)) == 0 {
+				continue
+			}
+			var x struct {
+				Flags map[string]bool `json:"flags"`
+				Shape string          `json:"shape"`
+				Pred  map[string]struct {
+					Class string `json:"class"`
+					Via   string `json:"via"`
+				} `json:"pred"`
+			}
+			if err := json.Unmarshal(line, &x); err != nil {
+				return err
+			}
+			cfg := wl.Cfg{Chunked: x.Flags["chunked"], ChunkSize: []int64{1, 100, 1 << 20}[li%3], Compression: []string{"", "zstd", "lz4"}[(li/3)%3], CRC: li%2 == 0,
+				SkipChunkIdx: x.Flags["skipChunkIdx"], SkipRepChannels: x.Flags["skipRepChannels"], SkipRepSchemas: x.Flags["skipRepSchemas"],
+				SkipStats: x.Flags["skipStats"], SkipMsgIdx: x.Flags["skipMsgIdx"]}
+			calls := []wl.Call{{Op: "header", Profile: []byte("p")}}
+			var sid uint16
+			if x.Shape == "withschema" {
+				sid = 7
+				calls = append(calls, wl.Call{Op: "schema", ID: 7, Name: []byte("s"), Enc: []byte("e"), Data: []byte("d")})
+			}
+			calls = append(calls, wl.Call{Op: "channel", ID: 3, Schema: sid, Topic: topicA, Menc: []byte("m")})
+			if x.Shape != "empty" {
+				calls = append(calls, wl.Call{Op: "message", Ch: 3, Seq: 1, Log: 5, Pub: 1, Data: []byte("one")}, wl.Call{Op: "message", Ch: 3, Seq: 2, Log: 3, Pub: 2, Data: []byte("two")})
+			}
+			calls = append(calls, wl.Call{Op: "close"})
+			w := wl.Workload{ID: fmt.Sprintf("dec%d", li), Cfg: cfg, Calls: calls}
+			var buf bytes.Buffer
+			tr0 := wl.NewTrace()
+			res := run.RunWriter(tr0, w, nil, &buf)
+			if len(res.Rets) == 0 || res.Rets[len(res.Rets)-1] != "ok" {
+				return fmt.Errorf("decision file %d could not be written", li)
+			}
+			fb := append([]byte{}, buf.Bytes()...)
+			d := describe(fb)
+			tr := wl.NewTrace()
+			tr.Add(wl.Ev{"ev": "Run", "id": w.ID})
+			tr.Add(d.ev)
+			tr.Add(infoEvent(d))
+			var specs []readSpec
+			for _, m := range []string{"default", "idxfile", "idxlog", "scan"} {
+				rs := map[string]readSpec{"default": {Mode: "default"}, "idxfile": {Mode: "index", Order: "file"}, "idxlog": {Mode: "index", Order: "log"}, "scan": {Mode: "scan"}}[m]
+				specs = append(specs, rs)
+				e := doRead(d, rs)
+				e["predClass"], e["predVia"], e["dmode"] = x.Pred[m].Class, x.Pred[m].Via, m
+				tr.Add(e)
+			}
+			tr.Add(wl.Ev{"ev": "End"})
+			if o.wls != nil {
+				jb, _ := json.Marshal(map[string]any{"id": w.ID, "file": fb, "specs": specs})
+				o.wls.Write(jb)
+				o.wls.WriteByte('\n')
+			}
+			if err := o.emit(tr); err != nil {
 				return err
 			}
 		}
